@@ -306,6 +306,11 @@ class C17:
             if name == "nodata_int":
                 op["value"] = rnd.choice([0, -1, 255, -9999])
             ops.append(op)
+            if name in ("mask_wrong_size", "classif_wrong_size", "mask_garbage", "segm_garbage") and rnd.random() < 0.5:
+                # the same kind of raster, well-formed, on the other side
+                good = {"mask_wrong_size": "mask_ok", "classif_wrong_size": "classif_ok", "mask_garbage": "mask_ok",
+                        "segm_garbage": "segm_ok"}[name]
+                ops.append({"name": good, "side": "left" if op["side"] == "right" else "right", "pixel": [0, 0]})
         return ops
 
     def generate(self, rnd, index, tier):
